@@ -48,6 +48,10 @@ SHORT_BODIES = [
     b"2;a\r\nab\r\n0\r\nT: v\r\n\r\n",
     b"2\r\nab\r\n0\r\nT: v\nx\r\n\r\n",
     b"2\r\nabX\r\n0\r\n\r\n",
+    b"2\r\nabX\n0\r\n\r\n",
+    b"1\r\na\n\n0\r\n\r\n",
+    b"1\r\na\r\r\n0\r\n\r\n",
+    b"1\r\na\x00\n0\r\n\r\n",
     b"2\n\r\nab\r\n0\r\n\r\n",
     b"0\r\n\r\nGET /\r\n\r\n",
     b"a\r\n0123456789\r\n0\r\n\r\n",
@@ -66,6 +70,8 @@ def long_streams():
         yield "chunk-size-zeros", L, HEAD_CHUNKED + b"0" * L + b"4\r\ntest\r\n0\r\n\r\n" + G.FOLLOWUP
         yield "trailer", L, HEAD_CHUNKED + b"4\r\ntest\r\n0\r\nX-T: " + b"v" * L + b"\r\n\r\n" + G.FOLLOWUP
         yield "trailers", L, HEAD_CHUNKED + b"4\r\ntest\r\n0\r\n" + b"".join(b"T%d: v\r\n" % i for i in range(L // 9)) + b"\r\n" + G.FOLLOWUP
+        yield "header-lines", L, b"GET /a HTTP/1.1\r\nHost: h\r\n" + b"".join(b"H%d: v\r\n" % i for i in range(L // 9)) + b"\r\n" + G.FOLLOWUP
+        yield "empty-chunks", L, HEAD_CHUNKED + b"".join(b"1\r\n%c\r\n" % (97 + i % 26) for i in range(L // 9)) + b"0\r\n\r\n" + G.FOLLOWUP
         yield "header-value", L, b"GET /a HTTP/1.1\r\nHost: h\r\nX-L: " + b"v" * L + b"\r\n\r\n" + G.FOLLOWUP
         yield "target", L, b"GET /" + b"t" * L + b" HTTP/1.1\r\nHost: h\r\n\r\n" + G.FOLLOWUP
         yield "chunk-data", L, HEAD_CHUNKED + b"%x\r\n" % L + b"d" * L + b"\r\n0\r\n\r\n" + G.FOLLOWUP
